@@ -452,11 +452,11 @@ RULE_ADDENDA = {
     "C01": "TestConcurrentTransfers: 2-5 logical connections of one pair, each announcing itself with a 16-byte header, transfer drawn payloads both ways at the same instant; every one is compared byte for byte. In addition every application write length 1..420 (thorough 1..1600) is sent over one DNS logical connection, one write at a time, and echoed back (all residues of the write length modulo the tunnel's chunk size; always counted non-trivial). The server offers two decoy channels (listed before and after the one in use) whose target must never see a connection. TestAgedSession: negotiation limit lowered to 2 s; per carrier 100000 bytes each way, 2.6 s idle, 100000 more on the same connection. A third of the concurrent-transfer cases make a request for a channel the server does not offer meanwhile; the SOCKETACE_PIPE_DEBUG copy loops are a drawn configuration. TestDNSSessionPastTheSequenceWrap: one DNS physical session carries 14 MiB upstream over 14 logical connections (more packets than the tunnel's 16-bit sequence numbers count); every connection's megabyte must be confirmed by the target and all bytes must be the written ones. Time bounds grow by 30 s per megabyte of the case; a concurrent-transfer case that ran into a time bound is run once more and counts only when it is late again (else inconclusive).",
     "C03": "TestHTTPPathAllowLists: for an HTTP server with two (thorough: three) websocket paths over a table of two channels every combination of per-path allow-lists {all,[x],[y],[x,y]} and every path in use is enumerated. TestConcurrentRequestsOnFreshSessions: 400 (thorough 6000) fresh clients each request eight of twelve channels (eight on the allow-list) at the same instant; allowed names must reach their own target, the others must be refused.",
     "C04": "Experiment 3 also configures the TLS endpoint without any certificate in a quarter of its cases (refusing to start is fine, serving in clear is not). TestCapabilitySpellings: ten spellings of a capability list containing StartTLS (blanks around commas, other capabilities, case) x required security x {tcp, http}. Experiment 3 draws the HTTPS endpoint under its spellings https / wss / http+tls / ws+tls; TestTLSEndpointSpellings enumerates every TLS endpoint spelling against three complete plaintext openings. The wire-observer matrix also spells http upstreams ws:// and https upstreams wss://. TestTLSEndpointSpellings includes the unix+tls endpoint.",
-    "C05": "For the matching server certificate two more client certificates are enumerated: one of a foreign CA that has the subject of the server's CA (a Go TLS client withholds a certificate whose issuer the server did not name, so only this one is really presented) and an expired one of the right CA. UDP endpoints that also carry a shared secret (equal on both ends) are judged over server certificate x insecure x client certificate x require like those without. Host-less StartTLS upstream addresses (tcp://:port, udp://:port) x server certificate x insecure: never admitted unless insecure. CA options holding two certificates (an unrelated CA first, the issuing one second). TestSameUpstreamAgain: one TLS upstream object (tcp+tls, https) meets on its second and third attempt a peer without certificate on the same address. The process' platform trust store is made to hold exactly one CA that nobody configures (SSL_CERT_FILE); servers and clients vouched for only by it must be refused like those of any foreign CA. TLS over a unix-domain socket (no host name to match) is enumerated one-sidedly over five server certificates x insecure: never admitted unless insecure.",
+    "C05": "For the matching server certificate two more client certificates are enumerated: one of a foreign CA that has the subject of the server's CA (a Go TLS client withholds a certificate whose issuer the server did not name, so only this one is really presented) and an expired one of the right CA. UDP endpoints that also carry a shared secret (equal on both ends) are judged over server certificate x insecure x client certificate x require like those without. Host-less StartTLS upstream addresses (tcp://:port, udp://:port) x server certificate x insecure: never admitted unless insecure. CA options holding two certificates (an unrelated CA first, the issuing one second). TestSameUpstreamAgain: one TLS upstream object (tcp+tls, https) meets on its second and third attempt a peer without certificate on the same address. The process' platform trust store is made to hold exactly one CA that nobody configures (SSL_CERT_FILE); servers and clients vouched for only by it must be refused like those of any foreign CA. TLS over a unix-domain socket (no host name to match) is enumerated one-sidedly over five server certificates x insecure: never admitted unless insecure. The TLS websocket is also enumerated under its wss:// spelling (five server certificates x insecure x three client certificates x require).",
     "C06": "TestConcurrentHandshakes: 4-16 generated peers of both roles run alone and then all at the same instant over carriers that take 0-2 ms to consume each written message; every peer's outcome must equal its outcome in isolation. After a version conflict the upgrade token is varied (regular, socketace/, socketace, another version). One mutation hides the version offer behind a first line of more than 4096 bytes.",
     "C07": "TestBlackoutThenHealed (real poll loop): 0-4 writes, then 1-30 consecutive lost exchanges during the next write (which may give up and report an error with its accepted count), then a healed path; oracle: exactly the accepted bytes arrive within 15 s and a later write terminates and arrives. The sequence-wrap run is bounded by a watchdog: a Write that never returns fails the test after 6 minutes instead of hanging it.",
     "C11": "Single-record-type paths and the transparent path additionally move every write length 1..450 (thorough 1..2600) each way after the handshake. Size-limited paths drop oversize answers or truncate them (trailing records left out, TC set); 6 single-type paths x limits {512,1232,4096,5000,8192} x {drop, truncate} are enumerated with transfers of 1..9000 bytes.",
-    "C12": "Stray names also carry the domain's text partly inside a label (escaped dots and backslashes). TestClientOperationsAgainstHostileServer: every client operation (version handshake, each autodetection, option setting, data exchange, whole Handshake) against a server that answers every query in the tunnel's envelope with a drawn cycle of arbitrary command letters and bodies (error texts with NUL bytes, Base32 of arbitrary bytes, raw bytes); oracle: no panic, returns within 90 s.",
+    "C12": "Stray names also carry the domain's text partly inside a label (escaped dots and backslashes). TestClientOperationsAgainstHostileServer: every client operation (version handshake, each autodetection, option setting, data exchange, whole Handshake) against a server that answers every query in the tunnel's envelope with a drawn cycle of arbitrary command letters and bodies (error texts with NUL bytes, Base32 of arbitrary bytes, raw bytes); oracle: no panic, returns within 90 s. Server-side messages pass through the function the real UDP/TCP server calls for every datagram (NetConnectionServerCommunicator.handleRequest, with a writer that reports TsigStatus()==nil as miekg/dns does for a server without TSIG secrets) and carry a drawn additional section: nothing, EDNS0, a TSIG record (last, or followed by another record), an address record.",
     "C02": "TestSlowReaderWithinTheSharedBuffer: the stalled connection's target is a unix-domain socket that reads nothing (about 200 KiB of kernel buffering) and is sent 0.7-3 MiB in 1-40 writes; meanwhile an established and a freshly opened connection on the same session must complete 2000-byte echo round trips within the bound; after the release everything arrives at the slow target. TestConcurrentOpensAfterCarrierLoss: carrier lost (reset / orderly end / silence then reset while opens hang), then 2-5 opens at the same instant; all must echo, at most one new physical connection. refusedOpen asks either for a channel the server does not have or for one whose target refuses connections (the server must survive a failed dial and keep serving the others). pendingOpen: a request for a channel whose target neither accepts nor refuses the connection attempt (a listening socket with a full backlog) stays pending on the server while all other actions must keep making progress.",
     "C08": "TestBatchesAndConcurrency: the encodings of a batch of 2-12 inputs are kept and decoded only after the whole batch was encoded; or the batch's round trips run in as many goroutines at the same time (150 iterations each).",
     "C10": "TestDomainLengthSweep: tunnel domains of every length 3..150 (thorough ..200) x record types x codecs selectable over that domain x packet payloads {0,1,30,100,139,140,141,170,200,256,300,400,600,1000}. The payload walk sweeps 48 contents at both sides of every boundary it crosses.",
